@@ -7,7 +7,12 @@
    new index column (the column names of the source as strings) is supplied by
    the harness and the value columns (strings) are dropped: only name
    resolution is observed on a transposed table.
-   DReindex is not a derivation but an update of the same object through the
+   String columns other than the index are kept among the integer columns, a
+   name n as the integer Z.of_N n, so that DRepoint can make one of them the
+   index column and back.
+   DReindex and DRepoint are not derivations but updates of the same object:
+   DRepoint through the assignment of _index (fix 891b97d drops the cache);
+   DReindex is an update of the same object through the
    deletion of the index column and its re-creation (assignment of a column
    under the index name); the assignment invalidates the cache because its key
    is the index name, whichever branch of __setitem__ stores the value.
@@ -27,6 +32,9 @@ Inductive dop :=
 | DCols (keep : list N)         (* t = t.cols[[...]]  (existing integer columns) *)
 | DConcat (l : list idx)        (* t = Table.concatenate([t] + [t.rows[i] for i in l]) *)
 | DT (labels : list N)          (* t = t._t ; labels = the column names of t, as row names *)
+| DRepoint (c old : N)          (* t._index = '<other column>': the string column c (kept among the value
+                                   columns as name tokens) becomes the index column, the former index column
+                                   becomes the ordinary column old; same table object, cache dropped *)
 | DReindex (vals : list N).     (* the index column is deleted (del t[index] / t.pop(index)) and a column
                                    with the index name is assigned again (item or attribute style): same
                                    table object, new index column, no lookup in between *)
@@ -80,6 +88,11 @@ Definition dstep (t : table) (d : dop) : table * result :=
       end
   | DT labels => (fresh labels [], RUnit)
   | DReindex vals => (mkTable vals (t_cols t) None, RUnit)
+  | DRepoint c old =>
+      match aget N.eqb c (t_cols t) with
+      | Some l => (mkTable (map Z.to_N l) (aset N.eqb old (map Z.of_N (t_idx t)) (adel N.eqb c (t_cols t))) None, RUnit)
+      | None => (t, RErr KeyError)       (* not generated: the implementation accepts any name *)
+      end
   end.
 
 Fixpoint drun (t : table) (ops : list dop) : list result :=
